@@ -8,6 +8,10 @@ def chunk (n : Nat) (l : List Rat) : Nat → List (List Rat)
   | 0 => []
   | k + 1 => l.take n :: chunk n (l.drop n) k
 
+def chunkF (n : Nat) (l : List Float) : Nat → List (List Float)
+  | 0 => []
+  | k + 1 => l.take n :: chunkF n (l.drop n) k
+
 /-- lhs/rhs of the decision in the form the harness needs for the margin: mean filter `d²` against
 `t²·s`, median filter `d` against `t·s`; `rhs = null` for an infinite threshold -/
 def jCell (sq : Bool) (t : Option Rat) (c : Cell) : Json :=
@@ -35,15 +39,21 @@ def handle (op : String) (req : Json) : R Json := do
       | "mean" => pure true
       | "median" => pure false
       | _ => throw s!"bad kind {kind}"
+    -- "rint": the image has an integer dtype, np.pad rounds its pad values (half to even)
+    let (πmean, πmed) ← match (← getStr req "pad") with
+      | "exact" => pure (mean, median)
+      | "rint" => pure ((fun l => rint (mean l)), (fun l => rint (median l)))
+      | m => throw s!"bad pad mode {m}"
     match shape, block with
     | [n], [b] =>
-      let cells := if sq then meanCells1 b data else medianCells1 b data
+      let cells := if sq then meanCellsP1 πmean b data else medianCellsP1 πmed median b data
       let spec := (List.range n).map (fun i => if sq then specMean1 b data i else specMedian1 b data i)
       pure (jObj [("shape", jList jNat [cells.length]),
-                  ("model", jList (jCell sq t) cells), ("spec", jList (jSpec sq t) spec)])
+                  ("model", jList (jCell sq t) cells), ("spec", jList (jSpec sq t) spec),
+                  ("unchanged", jBool (mustBeUnchanged t data))])
     | [n0, n1], [b0, b1] =>
       let x := chunk n1 data n0
-      let cells := if sq then meanCells2 b0 b1 x else medianCells2 b0 b1 x
+      let cells := if sq then meanCellsP2 πmean b0 b1 x else medianCellsP2 πmed median b0 b1 x
       let spec := (List.range n0).flatMap (fun i => (List.range n1).map (fun j =>
         if sq then specMean2 b0 b1 x i j else specMedian2 b0 b1 x i j))
       let rowlens := cells.map (·.length)
@@ -52,7 +62,8 @@ def handle (op : String) (req : Json) : R Json := do
         | l :: _ => [cells.length, l]
       if rowlens.any (· != shp.getD 1 0) then throw "ragged model output"
       pure (jObj [("shape", jList jNat shp),
-                  ("model", jList (jCell sq t) cells.flatten), ("spec", jList (jSpec sq t) spec)])
+                  ("model", jList (jCell sq t) cells.flatten), ("spec", jList (jSpec sq t) spec),
+                  ("unchanged", jBool (mustBeUnchanged t data))])
     | _, _ => throw "only 1-D and 2-D"
   | "c13.at" =>
     -- the same model and specification for a large image: the specification only at the requested pixels
@@ -75,21 +86,26 @@ def handle (op : String) (req : Json) : R Json := do
       | "mean" => pure true
       | "median" => pure false
       | _ => throw s!"bad kind {kind}"
+    let (πmean, πmed) ← match (← getStr req "pad") with
+      | "exact" => pure (mean, median)
+      | "rint" => pure ((fun l => rint (mean l)), (fun l => rint (median l)))
+      | m => throw s!"bad pad mode {m}"
     match shape, block with
     | [_], [b] =>
       let spec := pixels.map (fun i => if sq then specMean1 b data i else specMedian1 b data i)
       let (shp, model) := if withModel then
-          let cells := if sq then meanCells1 b data else medianCells1 b data
+          let cells := if sq then meanCellsP1 πmean b data else medianCellsP1 πmed median b data
           (jList jNat [cells.length], jList (jCell sq t) cells)
         else (Json.null, Json.null)
-      pure (jObj [("shape", shp), ("model", model), ("spec", jList (jSpec sq t) spec)])
+      pure (jObj [("shape", shp), ("model", model), ("spec", jList (jSpec sq t) spec),
+                  ("unchanged", jBool (mustBeUnchanged t data))])
     | [n0, n1], [b0, b1] =>
       if n1 = 0 then throw "empty rows"
       let x := chunk n1 data n0
       let spec := pixels.map (fun k =>
         if sq then specMean2 b0 b1 x (k / n1) (k % n1) else specMedian2 b0 b1 x (k / n1) (k % n1))
       let (shp, model) ← if withModel then do
-          let cells := if sq then meanCells2 b0 b1 x else medianCells2 b0 b1 x
+          let cells := if sq then meanCellsP2 πmean b0 b1 x else medianCellsP2 πmed median b0 b1 x
           let rowlens := cells.map (·.length)
           let shp := match rowlens with
             | [] => [0, 0]
@@ -97,8 +113,34 @@ def handle (op : String) (req : Json) : R Json := do
           if rowlens.any (· != shp.getD 1 0) then throw "ragged model output"
           pure (jList jNat shp, jList (jCell sq t) cells.flatten)
         else pure (Json.null, Json.null)
-      pure (jObj [("shape", shp), ("model", model), ("spec", jList (jSpec sq t) spec)])
+      pure (jObj [("shape", shp), ("model", model), ("spec", jList (jSpec sq t) spec),
+                  ("unchanged", jBool (mustBeUnchanged t data))])
     | _, _ => throw "only 1-D and 2-D"
+  | "c13.f64" =>
+    -- the binary64 mechanism (`Pew.Filters.F64`) on bit patterns: reported beside the verdict, never part of it
+    let kind ← getStr req "kind"
+    let shape ← getList asNat req "shape"
+    let block ← getList asNat req "block"
+    let data := (← getList asNat req "bits").map (fun n => Float.ofBits n.toUInt64)
+    let t := Float.ofBits (← getNat req "tbits").toUInt64
+    if data.length ≠ shape.foldl (· * ·) 1 then throw "data/shape mismatch"
+    let out ← match kind, shape, block with
+      | "mean", [_], [b] => pure (F64.rollingMean1 b t data)
+      | "median", [_], [b] => pure (F64.rollingMedian1 b t data)
+      | "mean", [n0, n1], [b0, b1] => pure (F64.rollingMean2 b0 b1 t (chunkF n1 data n0)).flatten
+      | "median", [n0, n1], [b0, b1] => pure (F64.rollingMedian2 b0 b1 t (chunkF n1 data n0)).flatten
+      | _, _, _ => throw "bad kind/shape/block"
+    pure (jObj [("bits", jList (fun (f : Float) => jNat f.toBits.toNat) out)])
+  | "c13.constinfo" =>
+    -- a constant image `c` in the binary format (p, emin), window of `n` values, `depth` roundings at most:
+    -- are all partial sums j*c exact, and how far can a rounded mean be from c
+    let c ← getRat req "c"
+    let p ← getNat req "p"
+    let emin ← getInt req "emin"
+    let n ← getNat req "n"
+    let depth ← getNat req "depth"
+    pure (jObj [("is_bin", jBool (isBin p emin c)), ("sums_exact", jBool (sumsExact p emin n c)),
+                ("bound", jRat (constBound (1 / (2 : Rat) ^ p) depth c))])
   | _ => throw s!"unknown op {op}"
 
 end PewDriver.C13
